@@ -21,7 +21,8 @@ A *scenario* (the case JSON, self-contained) is
     files <first 2 chars of token's id>/<name>, "dst_dir_at": [token...] a DIRECTORY at the object's path,
     "dix_init": {"dirs": [...], "files": [...]} destination index pre-seeded, "plain_dst": true destination on a
     plain LocalFileSystem (real links, no fault injection, no per-attempt snapshots), "read_only_dst": true,
-    "req_names": {token: hash name} requested HashInfo name other than md5, "oracle_only": reason - the scenario
+    "hash_name": "md5-dos2unix" legacy stores on both sides (requested ids carry that name by default),
+    "req_names": {token: hash name} requested HashInfo name other than the stores' one, "oracle_only": reason - the scenario
     is judged by the oracles only (no correspondence item); round keys "kill_state": ["before"|"after", k] abort
     around the k-th state.save_many of the destination, "query_fault": true the destination's existence queries
     raise OSError during status, "raise_in_validate": true the validate_status callback raises;
@@ -460,6 +461,9 @@ class Scenario:
             cfg["state"] = self.dst_state
         if case.get("read_only_dst"):
             cfg["read_only"] = True
+        hn = case.get("hash_name") or "md5"  # "md5-dos2unix": legacy stores on both sides
+        if hn != "md5":
+            cfg["hash_name"] = hn
         dest = dcls(fs, self.p_dst, **cfg)
         real_add = dest.add
 
@@ -486,12 +490,13 @@ class Scenario:
                 return real_save_many(*a, **kw)
 
             self.dst_state.save_many = killing_save_many
-        src = impl.make_odb(case["src_cls"], self.p_src)
-        cache = impl.make_odb(case.get("cache_cls", "local"), self.p_cache) if self.has_cache else None
+        hcfg = {"hash_name": hn} if hn != "md5" else {}
+        src = impl.make_odb(case["src_cls"], self.p_src, **hcfg)
+        cache = impl.make_odb(case.get("cache_cls", "local"), self.p_cache, **hcfg) if self.has_cache else None
         labels = case.get("labels") or {}
         names = case.get("req_names") or {}
-        obj_ids = {HashInfo(names.get(t, "md5"), self.oid[t], obj_name=labels[t]) if t in labels
-                   else HashInfo(names.get(t, "md5"), self.oid[t]) for t in ob["req"]}
+        obj_ids = {HashInfo(names.get(t, hn), self.oid[t], obj_name=labels[t]) if t in labels
+                   else HashInfo(names.get(t, hn), self.oid[t]) for t in ob["req"]}
         ob["req_order"] = [h.value for h in obj_ids]
         seen = []
         dirorder = []
@@ -1078,7 +1083,11 @@ def dimensions(S):
     if case.get("labels"):
         d.add("id:labelled-" + ("dir+file" if any(is_dir(t) for t in case["labels"]) and
                                   any(not is_dir(t) for t in case["labels"]) else "some"))
-    if case.get("req_names"):
+    if case.get("hash_name") and case["hash_name"] != "md5":
+        d.add("store:legacy-hash-name(%s)" % case["hash_name"])
+        if case.get("req_names"):
+            d.add("id:legacy-store-directory-requested-as-md5")
+    elif case.get("req_names"):
         d.add("id:mixed-hash-names")
     d.add("flag:jobs=%s" % case.get("jobs", 1))
     d.add("flag:verify=%d,hardlink=%d%s" % (bool(case["verify"]), bool(case.get("hardlink")),
